@@ -242,6 +242,55 @@ fn check_model(name: &str, path: &std::path::Path, su: SpeedUnit, gu: GradeUnit,
                 continue;
             }
         };
+        // the same grid configured through the loader the application uses (ModelType::Interpolate): it must be the same model
+        // as the directly constructed one (speed and grade bin counts differ in most grids, so a mix-up shows)
+        let mt = ModelType::Interpolate {
+            underlying_model_type: Box::new(ModelType::Smartcore),
+            speed_lower_bound: Speed::new(slo),
+            speed_upper_bound: Speed::new(shi),
+            speed_bins: sb,
+            grade_lower_bound: Grade::new(glo),
+            grade_upper_bound: Grade::new(ghi),
+            grade_bins: gb,
+        };
+        let loaded = match guarded(|| routee_compass_powertrain::routee::prediction::load_prediction_model(name.to_string(), &path, mt.clone(), su, gu, eru, Some(EnergyRate::new(0.02)), Some(1.0), None).map_err(|e| e.to_string())) {
+            Ok(Ok(r)) => Some(r),
+            Ok(Err(e)) => {
+                st.violation("interpolated_model.loader", "builds", 0, || e.clone(), || json!({"kind": "model", "model": name, "grid": [slo, shi, sb as f64, glo, ghi, gb as f64]}));
+                None
+            }
+            Err(p) => {
+                st.violation("interpolated_model.loader", "builds_no_panic", 0, || p.clone(), || json!({"kind": "model", "model": name}));
+                None
+            }
+        };
+        if let Some(rec) = &loaded {
+            let sxx = linspace(slo, shi, sb);
+            let gxx = linspace(glo, ghi, gb);
+            let mut all_same = true;
+            for (i, s) in sxx.iter().enumerate().step_by((sb / 7).max(1)) {
+                for (j, g) in gxx.iter().enumerate().step_by((gb / 5).max(1)) {
+                    // grid points and cell centres
+                    for (ds, dg) in [(0.0, 0.0), (0.5, 0.5)] {
+                        if (ds > 0.0) && (i + 1 >= sb || j + 1 >= gb) {
+                            continue;
+                        }
+                        let (sq, gq) = if ds > 0.0 { (s + (sxx[i + 1] - s) * ds, g + (gxx[j + 1] - g) * dg) } else { (*s, *g) };
+                        st.evaluations += 1;
+                        st.transitions += 2;
+                        let a = model.predict((Speed::new(sq), su), (Grade::new(gq), gu)).map(|r| r.0.as_f64()).unwrap_or(f64::NAN);
+                        let b = rec.prediction_model.predict((Speed::new(sq), su), (Grade::new(gq), gu)).map(|r| r.0.as_f64()).unwrap_or(f64::NAN);
+                        if !close(a, b, 1e-9) {
+                            all_same = false;
+                            st.violation("interpolated_model.loader", "loaded_model_is_the_configured_model", (i * 100 + j) as u64, || format!("at ({}, {}): constructed directly {} loaded through load_prediction_model {}", sq, gq, a, b), || json!({"kind": "model", "model": name, "grid": [slo, shi, sb as f64, glo, ghi, gb as f64], "declared_units": [su.to_string(), gu.to_string(), eru.to_string()], "speed": sq, "grade": gq}));
+                        }
+                    }
+                }
+            }
+            if all_same {
+                st.pass("loaded_model_is_the_configured_model");
+            }
+        }
         let sx = linspace(slo, shi, sb);
         let gx = linspace(glo, ghi, gb);
         let under = |s: f64, g: f64| underlying.predict((Speed::new(s), su), (Grade::new(g), gu)).map(|r| r.0.as_f64()).unwrap_or(f64::NAN);
